@@ -233,7 +233,7 @@ class Ctx:
         cdir = os.path.join(BUILD, 'cases')
 
         def work(ix):
-            name = '%s_%s_%d' % (self.pid, tag, ix)
+            name = '%s_%s_%d_%d' % (self.pid, tag, os.getpid(), ix)     # per-process: concurrent runs of one check must not share case files
             path = os.path.join(cdir, name + '.v')
             with open(path, 'w') as f:
                 f.write(header + '\nSet Printing Width 1000000.\nSet Printing Depth 1000000.\n')
